@@ -180,6 +180,9 @@ v("ap-inputs-deletable", P, "    delete_blacklist = terms_in_products | inputs |
 v("ap-diag-wrapper-dropped", P, "            if eval_type == _EvalType.diagonal:\n                node.body[0] = ast.Expr(", "            if eval_type == _EvalType.lower:\n                node.body[0] = ast.Expr(", ["C09"])
 v("ap-lower-falls-through", P, "            if eval_type == _EvalType.lower:\n                nodes[0].body.append(ast.Return(value=result))\n", "", ["C09"])
 v("ap-products-differ-between-families", P, "                hermitian=product.hermitian,\n            )", "                hermitian=product.hermitian and which is series,\n            )", ["C06"])
+v("ap-del-pops-start-values", P, "        if index in start_values.get(series_name, ()):\n            return\n", "", ["C09", "C10"], "re-introduces F10")
+v("ap-start-table-not-filled", P, "        start_values[term.name] = series_data or {}\n", "        start_values[term.name] = {}\n", ["C09", "C10"])
+v("ok-ap-del-guard-positive", P, "        if index in start_values.get(series_name, ()):\n            return\n        series[series_name].pop(index, None)\n        linear_operator_series[series_name].pop(index, None)", "        if index not in start_values.get(series_name, ()):\n            series[series_name].pop(index, None)\n            linear_operator_series[series_name].pop(index, None)", [])
 v("ap-del-single-cache", P, "        series[series_name].pop(index, None)\n        linear_operator_series[series_name].pop(index, None)", "        series[series_name].pop(index, None)", ["C06"])
 v("ok-ap-diagonal-adjoint-index", P, "slice=ast.Index(value=self._index(adjoint and (not self.diagonal))),", "slice=ast.Index(value=self._index(adjoint)),", [], "on diagonal blocks the swapped index equals the index")
 
